@@ -7,6 +7,7 @@ package main
 import (
 	"bytes"
 	"crypto/dsa"
+	"crypto/hmac"
 	"crypto/sha1"
 	"crypto/sha256"
 	"encoding/hex"
@@ -446,7 +447,7 @@ func exec(line string) string {
 		return execRecv(o)
 	case "conv":
 		return execConv(o)
-	case "mut":
+	case "mut", "forge":
 		return execMut(o)
 	}
 	return "bad-op"
@@ -1336,6 +1337,197 @@ func genAttack(g *hx.Gen, n int) {
 	}
 }
 
+// ---- forgeries with revealed MAC keys
+// OTR publishes the receiving MAC key of a key slot once the slot is retired (old_mac_keys field of the next
+// outgoing data message). From then on a message authenticated with that key must no longer be accepted.
+// The attacker here takes a genuine old message to the victim, finds among the keys the victim revealed the
+// one that authenticates it, changes counter and ciphertext, recomputes the MAC and sends it.
+
+type dataFields struct {
+	maced, mac, old []byte
+	ctrOff, encEnd  int
+}
+
+func parseDataWire(text []byte) (raw []byte, f dataFields, ok bool) {
+	if !bytes.HasPrefix(text, []byte("?OTR:")) || len(text) < 7 {
+		return
+	}
+	raw, err := base64.StdEncoding.DecodeString(string(text[5 : len(text)-1]))
+	if err != nil || len(raw) < 16 || raw[2] != 3 {
+		return
+	}
+	p := 3 + 1 + 4 + 4
+	rd := func() bool { // u32-length-prefixed field
+		if p+4 > len(raw) {
+			return false
+		}
+		n := int(raw[p])<<24 | int(raw[p+1])<<16 | int(raw[p+2])<<8 | int(raw[p+3])
+		p += 4 + n
+		return p <= len(raw)
+	}
+	if !rd() { // y
+		return
+	}
+	f.ctrOff = p
+	p += 8
+	if !rd() { // encrypted
+		return
+	}
+	f.encEnd = p
+	if p+20+4 > len(raw) {
+		return
+	}
+	f.maced, f.mac = raw[:p], raw[p:p+20]
+	p += 20
+	q := p
+	if !rd() || p != len(raw) {
+		return
+	}
+	f.old = raw[q+4:]
+	return raw, f, true
+}
+
+func genForge(g *hx.Gen, n int) {
+	r := g.R
+	for emitted := 0; emitted < n; {
+		seed := r.U64()
+		cr := newConvRun(seed, 0, 0)
+		var toks []string
+		var wire = map[string][][]byte{} // "a": data messages delivered to a (as wire text)
+		var revealed = map[string][][]byte{}
+		run := func(t string) {
+			cr.step(len(toks), t)
+			toks = append(toks, t)
+		}
+		first := r.PickStr("a", "b")
+		run(fmt.Sprintf("q%s.%s", first, hx.Hex(commitDigest(mix(seed, 0)))))
+		for j := 0; j < 4; j++ {
+			run("da")
+			run("db")
+		}
+		// the attacker first makes the victim derive keys for every key-id pair of its window: calcDataKeys
+		// fills a slot before the MAC is checked (the forgeries themselves are rejected)
+		plant := r.Chance(2, 3)
+		if plant {
+			run("sb." + hx.Hex([]byte("p0")))
+			run("da")
+			run("sa." + hx.Hex([]byte("p1")))
+			run("db")
+			v := r.PickStr("a", "b")
+			for my := uint32(1); my <= 3; my++ {
+				for their := uint32(1); their <= 3; their++ {
+					run(fmt.Sprintf("x%s.%s.-", v, hx.Hex(forgedData(their, my))))
+				}
+			}
+			g.Stat("forge.planted-slots")
+		}
+		// sends by either side with deliveries in random FIFO interleaving, so that messages cross: a key slot
+		// is then retired by the peer's key rotation alone (not also by my own rotation)
+		nmsg := 0
+		sendRec := func(from string) { // Send, and remember the wire text and the MAC keys it reveals
+			to := map[string]string{"a": "b", "b": "a"}[from]
+			nmsg++
+			run(fmt.Sprintf("s%s.%s", from, hx.Hex([]byte(fmt.Sprintf("m%d", nmsg)))))
+			_, peer := cr.pick("s" + from)
+			if k := len(peer.inbox); k > 0 {
+				text := joinText(peer.inbox[k-1])
+				if _, f, ok := parseDataWire(text); ok {
+					wire[to] = append(wire[to], text)
+					for o := 0; o+20 <= len(f.old); o += 20 {
+						revealed[from] = append(revealed[from], f.old[o:o+20])
+					}
+				}
+			}
+		}
+		if r.Chance(1, 2) {
+			// the shortest honest history (found by exhaustive search over the key-id ratchet) in which a slot is
+			// retired by the PEER's key rotation alone: crossing messages
+			for _, t := range []string{"sa", "sb", "da", "sa", "db", "sb", "da", "sa", "db", "db"} {
+				if t[0] == 's' {
+					sendRec(t[1:])
+				} else {
+					run(t)
+				}
+			}
+			g.Stat("forge.their-only-eviction-pattern")
+		}
+		quick := r.Chance(1, 2) // forge right after the key is out (before the cache slot can be recycled)
+		for j, steps := 0, r.Range(4, 16); j < steps && !quick; j++ {
+			if r.Intn(3) == 0 {
+				sendRec(r.PickStr("a", "b"))
+			} else {
+				run("d" + r.PickStr("a", "b"))
+			}
+		}
+		for j := 0; j < 12 && !quick; j++ {
+			run("da")
+			run("db")
+		}
+		flush := []string{"a", "b", "a", "b"}
+		if quick {
+			flush = []string{"b", "a"}
+		}
+		for _, from := range flush { // flush collected old MAC keys onto the wire
+			sendRec(from)
+			run("d" + map[string]string{"a": "b", "b": "a"}[from])
+		}
+		if plant { // fresh forgeries authenticated with each revealed key, for every small key-id pair
+			for _, victim := range []string{"a", "b"} {
+				keys := revealed[victim]
+				hx.Shuffle(r, keys)
+				for ki, key := range keys {
+					if ki >= 3 {
+						break
+					}
+					for my := uint32(1); my <= 4; my++ {
+						for their := uint32(1); their <= 4; their++ {
+							if !r.Chance(1, 3) {
+								continue
+							}
+							raw := []byte{0, 2, 3, 0}
+							raw = append(raw, u32(int(their))...)
+							raw = append(raw, u32(int(my))...)
+							raw = append(raw, 0, 0, 0, 1, 2)
+							raw = append(raw, 0xff, 0, 0, 0, 0, 0, 0, 1)
+							raw = append(raw, data(r.Bytes(16))...)
+							m := hmac.New(sha1.New, key)
+							m.Write(raw)
+							raw = append(raw, m.Sum(nil)[:20]...)
+							raw = append(raw, 0, 0, 0, 0)
+							g.Stat("forge.fresh-with-revealed-key")
+							g.Emit("forge seed=%d fa=0 fb=0 script=%s to=%s in=%s", seed, strings.Join(toks, ","), victim, hx.Hex(frame(raw)))
+							emitted++
+						}
+					}
+				}
+			}
+		}
+		for _, victim := range []string{"a", "b"} {
+			for _, text := range wire[victim] {
+				raw, f, _ := parseDataWire(text)
+				for _, key := range revealed[victim] {
+					m := hmac.New(sha1.New, key)
+					m.Write(f.maced)
+					if !bytes.Equal(m.Sum(nil)[:20], f.mac) {
+						continue
+					}
+					// the victim has revealed the key that authenticates this message: forge with it
+					forged := append([]byte(nil), raw[:f.encEnd]...)
+					forged[f.ctrOff] = 0xff
+					forged[f.encEnd-1] ^= 0x20
+					m = hmac.New(sha1.New, key)
+					m.Write(forged)
+					forged = append(forged, m.Sum(nil)[:20]...)
+					forged = append(forged, 0, 0, 0, 0)
+					g.Stat("forge.revealed-mac-key")
+					g.Emit("forge seed=%d fa=0 fb=0 script=%s to=%s in=%s", seed, strings.Join(toks, ","), victim, hx.Hex(frame(forged)))
+					emitted++
+				}
+			}
+		}
+	}
+}
+
 func reportTables(g *hx.Gen) {
 	for t, n := range map[string]int{"msgType": 9, "tlvTail": 7, "fragSize": len(fragSizes)} {
 		g.StatN(fmt.Sprintf("table.%s=%d/%d", t, len(tableHit[t]), n), 1)
@@ -1350,6 +1542,7 @@ func gen(g *hx.Gen) {
 	genConv(g, g.Count(150, 3000))
 	genBurst(g)
 	genAttack(g, g.Count(8, 300))
+	genForge(g, g.Count(60, 2000))
 	reportTables(g)
 	genMut(g, g.Count(800, 60000))
 }
